@@ -1482,6 +1482,13 @@ class Evaluator:
                         return x if name in ('tuple', 'list') else SymObj(f'{name}({x.path})')
                     raise Undecided(f'{name}() of {x!r}')
                 return self.lift(_seq, args[0])
+            if name == 'next' and 1 <= len(args) <= 2 and not kwargs:
+                # next(<generator / list built from a known sequence>[, default])
+                its = self.items(st, args[0]) if not isinstance(args[0], Cond) else None
+                if its is not None:
+                    if its:
+                        return its[0]
+                    return args[1] if len(args) == 2 else Raised('StopIteration')
             if name == 'enumerate' and len(args) == 1 and not kwargs:
                 its = self.items(st, args[0]) if not isinstance(args[0], Cond) else None
                 if its is not None:
